@@ -657,19 +657,9 @@ func runOp(w *world, doc *ast.QueryDocument, op *ast.OperationDefinition, vars m
 // maxPayloads responses (-1: drain until nil).
 func runOpCtx(parent context.Context, maxPayloads int, w *world, doc *ast.QueryDocument, op *ast.OperationDefinition, vars map[string]any) runResult {
 	es := newES(w)
-	ex := executor.New(es)
-	ex.SetRecoverFunc(func(ctx context.Context, err any) error {
-		w.mu.Lock()
-		w.recovers++
-		w.mu.Unlock()
-		return gqlerror.Errorf("internal system error")
-	})
-	opCtx := &graphql.OperationContext{
-		RawQuery: "", Variables: vars, Doc: doc, Operation: op, DisableIntrospection: !w.introspection,
-		RecoverFunc:            func(ctx context.Context, err any) error { w.mu.Lock(); w.recovers++; w.mu.Unlock(); return gqlerror.Errorf("internal system error") },
-		ResolverMiddleware:     func(ctx context.Context, next graphql.Resolver) (any, error) { return next(ctx) },
-		RootResolverMiddleware: func(ctx context.Context, next graphql.RootResolver) graphql.Marshaler { return next(ctx) },
-	}
+	ex := newExecutorFor(es, w)
+	opCtx := opCtxFor(w, doc, vars)
+	opCtx.Operation = op
 	ctx := graphql.StartOperationTrace(parent)
 	rh, ctx2 := ex.DispatchOperation(ctx, opCtx)
 	var res runResult
@@ -694,6 +684,26 @@ func runOpCtx(parent context.Context, maxPayloads int, w *world, doc *ast.QueryD
 	}
 	sort.Strings(res.errs)
 	return res
+}
+
+func newExecutorFor(es graphql.ExecutableSchema, w *world) *executor.Executor {
+	ex := executor.New(es)
+	ex.SetRecoverFunc(func(ctx context.Context, err any) error {
+		w.mu.Lock()
+		w.recovers++
+		w.mu.Unlock()
+		return gqlerror.Errorf("internal system error")
+	})
+	return ex
+}
+
+func opCtxFor(w *world, doc *ast.QueryDocument, vars map[string]any) *graphql.OperationContext {
+	return &graphql.OperationContext{
+		RawQuery: "", Variables: vars, Doc: doc, Operation: doc.Operations[0], DisableIntrospection: !w.introspection,
+		RecoverFunc:            func(ctx context.Context, err any) error { w.mu.Lock(); w.recovers++; w.mu.Unlock(); return gqlerror.Errorf("internal system error") },
+		ResolverMiddleware:     func(ctx context.Context, next graphql.Resolver) (any, error) { return next(ctx) },
+		RootResolverMiddleware: func(ctx context.Context, next graphql.RootResolver) graphql.Marshaler { return next(ctx) },
+	}
 }
 
 func sameStrings(a, b []string) bool {
